@@ -489,13 +489,16 @@ def shard(tier, seed, idx, n):
     mode = "line"
     S.install(pool_codes(), mode)
     cs = cases(tier)
-    budget = 700 if tier == "quick" else 40000
     allex = True
     for ci, (case, P) in enumerate(cs):
         if ci % n != idx:
             continue
+        budget = 700
         if tier == "thorough":
             P = P + 1
+            single_ops = all(len(p) == 1 for p in case[1])
+            # two single-operation threads: exhaustive within the bound; longer programs: a large shuffled-DFS budget
+            budget = 30000 if (single_ops and len(case[1]) == 2) else 6000
         ex, exhaustive = explore(res, case, P, mode, budget, random.Random(seed + ci))
         allex = allex and exhaustive
         if not exhaustive:
@@ -506,7 +509,7 @@ def shard(tier, seed, idx, n):
         for ci, (case, P) in enumerate(cs):
             if ci % n != idx or case[0] != "pool" or len(case[1]) != 2 or any(len(p) > 1 for p in case[1]):
                 continue
-            ex, exhaustive = explore(res, case, 2, "ins", 30000, random.Random(seed + ci))
+            ex, exhaustive = explore(res, case, 2, "ins", 12000, random.Random(seed + ci))
             res.count("instruction_granularity_cases")
             allex = allex and exhaustive
         S.install(pool_codes(), "line")
